@@ -147,6 +147,9 @@ pub enum LocalSwarmCmd {
     TriggerIntervalReplication,
     /// Triggers unrelevant record cleanup
     TriggerIrrelevantRecordCleanup,
+    /// Verification hook: run a closure on the driver from inside its own event loop
+    #[cfg(feature = "verif-hooks")]
+    VerifWithDriver(Box<dyn FnOnce(&mut SwarmDriver) + Send>),
     /// Add a network density sample
     AddNetworkDensitySample {
         distance: Distance,
@@ -306,6 +309,10 @@ impl Debug for LocalSwarmCmd {
             }
             LocalSwarmCmd::TriggerIrrelevantRecordCleanup => {
                 write!(f, "LocalSwarmCmd::TriggerUnrelevantRecordCleanup")
+            }
+            #[cfg(feature = "verif-hooks")]
+            LocalSwarmCmd::VerifWithDriver(_) => {
+                write!(f, "LocalSwarmCmd::VerifWithDriver")
             }
             LocalSwarmCmd::AddNetworkDensitySample { distance } => {
                 write!(f, "LocalSwarmCmd::AddNetworkDensitySample({distance:?})")
@@ -926,6 +933,11 @@ impl SwarmDriver {
             LocalSwarmCmd::AddNetworkDensitySample { distance } => {
                 cmd_string = "AddNetworkDensitySample";
                 self.network_density_samples.add(distance);
+            }
+            #[cfg(feature = "verif-hooks")]
+            LocalSwarmCmd::VerifWithDriver(f) => {
+                cmd_string = "VerifWithDriver";
+                f(self);
             }
         }
 
